@@ -26,7 +26,8 @@ static void symbolic_sections(bool symbolic_offsets) {
 }
 
 // Runs flatten() and checks its contract; returns true when it succeeded.
-static bool flatten_checked(CodeHolder* c) {
+// kf_mode: 0 = main harness (region of known finding C10a excluded while it is open), 1 = confined to that region, -1 = no code_size call.
+static bool flatten_checked(CodeHolder* c, int kf_mode) {
   // Reference: does the layout fit into 64 bits (exact arithmetic, first overflow is final)?
   bool fits = true; uint64_t run = 0;
   for (uint32_t i = 0; i < 4; i++) {
@@ -65,14 +66,34 @@ static bool flatten_checked(CodeHolder* c) {
     end_prev = off + pre[i].real;
   }
   V_ASSERT(end_prev == run, "layout is the tightest one");
-  V_ASSERT(uint64_t(c->code_size()) == end_prev, "code_size is the end of the last section");
+  // Known finding C10a: a section that is empty when flatten() runs, followed by a section that needs alignment padding, is
+  // handed that padding as its virtual size; code_size() then treats it as non-empty and aligns it, over-reporting the size.
+  bool kf = false;
+  for (uint32_t i = 0; i < 3; i++) if (pre[i].real == 0 && sec(i)->_virtual_size != 0) kf = true;
+  if (kf_mode == 0) {
+#if KF_C10a
+    V_ASSUME(!kf);
+#endif
+  }
+  else V_ASSUME(kf);
+  if (kf_mode >= 0) {
+    size_t cs = c->code_size();
+    verif_observe(cs);
+    V_ASSERT(uint64_t(cs) >= end_prev, "code_size is never smaller than the end of the last section");
+    V_ASSERT(uint64_t(cs) == end_prev, "code_size is the end of the last section");
+  }
   return true;
 }
 
 HARNESS h_flatten() {
   CodeHolder* c = make_holder(Arch::kX64, 4);
   symbolic_sections<16>(false);
-  if (flatten_checked(c)) V_WITNESS("flatten-ok"); else V_WITNESS("flatten-overflow");
+  if (flatten_checked(c, 0)) V_WITNESS("flatten-ok"); else V_WITNESS("flatten-overflow");
+}
+HARNESS h_flatten_kf_C10a() {
+  CodeHolder* c = make_holder(Arch::kX64, 4);
+  symbolic_sections<16>(false);
+  if (flatten_checked(c, 1)) V_WITNESS("flatten-ok-empty-section-padded");
 }
 
 // ---- copy_flattened_data into a guarded destination of symbolic size 0..DS, from the state flatten() leaves
@@ -81,7 +102,7 @@ static void flatten_copy() {
   static uint8_t img[8 + DS + 8], img_before[8 + DS + 8];
   CodeHolder* c = make_holder(Arch::kX64, 4);
   symbolic_sections<BS>(false);
-  if (!flatten_checked(c)) return;
+  if (c->flatten() != Error::kOk) return;  // flatten's own contract: h_flatten
 
   for (uint32_t j = 0; j < sizeof(img); j++) { img[j] = nondet_u8(); img_before[j] = img[j]; }
   size_t dst_size = nondet_u8() % (DS + 1);
